@@ -1,3 +1,86 @@
-import LokiModel.C31.Model
+import LokiModel.C31.Unroll
+import LokiModel.C31.Nest
+/-!
+# C31 — witnesses of open defects of loop unrolling (non-gating: a repair of the code makes these statements false)
+
+Each witness is a small statement list `ss`, run before and after the model of `do_loop_unroll` (`unrollBody`) from the same
+state.  The same programs are replayed on the real code by the oracle (`known_findings.json` witnesses).
+-/
 namespace LokiModel.C31
+open LokiModel.Fir
+open LokiModel.Expr (Val)
+
+def P0 : Program := { units := [], main := "k" }
+def σ0 : St := { store := [("s", .scalar .int (some (.int 0))), ("i", .scalar .int none), ("t", .scalar .int none)] }
+
+def getInt (r : Res) (x : String) : Option Int :=
+  match r with
+  | .ok st _ => match lookupCell st x with
+      | some (.scalar _ (some (.int n))) => some n
+      | _ => none
+  | _ => none
+
+def isErr : Res → Bool
+  | .err _ => true
+  | _ => false
+
+def sigOf : Res → Option Sig
+  | .ok _ s => some s
+  | _ => none
+
+def i1 : Ex := .lit (.int 1)
+def i2 : Ex := .lit (.int 2)
+def pragmaU : Stmt := .nop "pragma" "loki loop-unroll"
+def sPlus (e : Ex) : Stmt := .assign (.var "s") (.bin .add (.var "s") e)
+
+/-! The unrolled lists are written with `unrollCopies` (the model's core step); that `unrollBody` produces exactly these lists for
+the three inputs is part of the correspondence check (the witnesses are in `corpus/C31/`): `unrollBody` parses pragma texts with
+string functions that the kernel does not evaluate by `decide`. -/
+
+/-- class `unroll-loopvar-live`: `do i = 1, 2; s = s + i; end do; t = i` -/
+def liveW : List Stmt := [pragmaU, .doLoop "i" i1 i2 none [sPlus (.var "i")], .assign (.var "t") (.var "i")]
+def liveU : List Stmt := unrollCopies "i" [sPlus (.var "i")] [1, 2] ++ [.assign (.var "t") (.var "i")]
+
+/-- the original sets `t = 3` (DO variable after the loop); the unrolled code reads the undefined `i` -/
+theorem unroll_live_witness :
+    getInt (execStmts P0 20 liveW σ0) "t" = some 3 ∧ isErr (execStmts P0 20 liveU σ0) = true := by
+  decide
+
+/-- the loop variable itself: 3 after the loop, still undefined after the unrolled code (why `unroll_sound` excludes `v`) -/
+theorem unroll_loopvar_differs :
+    getInt (execStmts P0 20 [.doLoop "i" i1 i2 none [sPlus (.var "i")]] σ0) "i" = some 3 ∧
+    getInt (execStmts P0 20 (unrollCopies "i" [sPlus (.var "i")] [1, 2]) σ0) "i" = none ∧
+    getInt (execStmts P0 20 (unrollCopies "i" [sPlus (.var "i")] [1, 2]) σ0) "s" = some 3 := by
+  decide
+
+/-- class `unroll-exit-cycle`: `do i = 1, 2; if (i == 1) cycle; s = s + 10; end do` -/
+def cycleBody : List Stmt := [.ifte (.bin (.cmp .eq) (.var "i") i1) [.cycle] [], sPlus (.lit (.int 10))]
+def cycleW : List Stmt := [pragmaU, .doLoop "i" i1 i2 none cycleBody]
+def cycleU : List Stmt := unrollCopies "i" cycleBody [1, 2]
+
+/-- the original adds 10 once; the unrolled code runs into a CYCLE outside any loop and stops with `s = 0` -/
+theorem unroll_cycle_witness :
+    getInt (execStmts P0 20 cycleW σ0) "s" = some 10 ∧
+    getInt (execStmts P0 20 cycleU σ0) "s" = some 0 ∧
+    sigOf (execStmts P0 20 cycleU σ0) = some .cycle := by
+  decide
+
+/-- class `unroll-print-text`: `do i = 1, 2; print *, i; end do` — PRINT is not substituted, `i` is never set -/
+def printW : List Stmt := [pragmaU, .doLoop "i" i1 i2 none [.print [.var "i"]]]
+def printU : List Stmt := unrollCopies "i" [.print [.var "i"]] [1, 2]
+
+theorem unroll_print_witness :
+    isErr (execStmts P0 20 printW σ0) = false ∧ isErr (execStmts P0 20 printU σ0) = true := by
+  decide
+
+/-- the three witnesses are outside the hypotheses of `unroll_sound` exactly as the classes say -/
+example : escapes cycleBody = true := by decide
+example : okSs "i" [.print [.var "i"]] = false := by decide
+example : mentionsFree "i" [.assign (.var "t") (.var "i")] = true := by decide
+
+/-- class `block-zero-trip-step`: `do i = 1, 2, -2` runs zero times, `num_iterations` is `(2 - 1)/(-2) + 1 = 1`
+(C10_numIter needs a non-empty loop); same for `do i = 3, 2, 2` -/
+theorem block_zero_trip_witness :
+    KnownBlockZeroTrip 1 2 (-2) = true ∧ KnownBlockZeroTrip 3 2 2 = true ∧ KnownBlockZeroTrip 2 1 1 = false := by decide
+
 end LokiModel.C31
